@@ -942,6 +942,10 @@ pub struct AdtsGene {
     /// 5 declared length < header, 6 truncated below 7 bytes, 7 mpeg-2 id bit, 8 channel config 0,
     /// 9 protected header but only 7..8 bytes
     pub corrupt: u8,
+    /// "don't care" header fields: bit 0 private_bit, 1 original/copy, 2 home, 3 copyright_id, 4 copyright_start,
+    /// bits 5..16 adts_buffer_fullness (11 bits); number_of_raw_data_blocks_in_frame = (misc >> 5) & 3 ... see build()
+    #[serde(default)]
+    pub misc: u16,
 }
 
 impl AdtsGene {
@@ -999,11 +1003,14 @@ impl AdtsGene {
         let mut f = vec![0u8; hdr];
         f[0] = if sync_ok { 0xff } else { 0xfe };
         f[1] = 0xf0 | (id << 3) | (layer << 1) | (self.protection_absent as u8);
-        f[2] = ((self.profile & 3) << 6) | (sfi << 2) | (chan >> 2);
-        f[3] = ((chan & 3) << 6) | ((declared >> 11) as u8 & 3);
+        let m = self.misc;
+        let fullness: u16 = if m == 0 { 0x7ff } else { (m >> 5) & 0x7ff };
+        let blocks: u8 = if m == 0 { 0 } else { (m & 3) as u8 ^ ((m >> 14) as u8 & 3) };
+        f[2] = ((self.profile & 3) << 6) | (sfi << 2) | (((m & 1) as u8) << 1) | (chan >> 2);
+        f[3] = ((chan & 3) << 6) | ((((m >> 1) & 0xf) as u8) << 2) | ((declared >> 11) as u8 & 3);
         f[4] = (declared >> 3) as u8;
-        f[5] = (((declared & 7) as u8) << 5) | 0x1f;
-        f[6] = 0xfc;
+        f[5] = (((declared & 7) as u8) << 5) | ((fullness >> 6) as u8 & 0x1f);
+        f[6] = (((fullness & 0x3f) as u8) << 2) | (blocks & 3);
         if !self.protection_absent {
             f[7] = 0xab;
             f[8] = 0xcd;
